@@ -140,7 +140,7 @@ PROPS["C19"] = {
 TB_SCHED = ["the cooperative scheduler and the instrumented vatomic/vsync packages (vsched/, ~400 lines): goroutines are serialised, so the explored executions are the sequentially consistent interleavings of the instrumented operations (Go's sync/atomic is sequentially consistent)",
             "import-path substitution applied to a scratch copy of the working tree (found by scanning imports on every run)"]
 PROPS["C04"] = {
-    "components": [Sched("gauge", 3000, 100000, exhaustive_limit=3000, conformance="tr-gauge")],
+    "components": [Sched("gauge", 3000, 100000, exhaustive_limit=3000, conformance="tr-gauge", only="C04:")],
     "rule": "gauge: 2-5 callers with outcomes success/failure/panic/failing fallback/panicking fallback race on one circuit with run and fallback limits in {-1,0,1,2,3}; every atomic operation and a marker inside the run/fallback functions is a scheduling point; "
             "random schedules plus DFS over all schedules of small 2-caller configurations; a run is distinct by (configuration, schedule) and every schedule of >= 2 callers is non-trivial",
     "trusted_base": TB_COMMON + TB_SCHED,
@@ -180,6 +180,9 @@ PROPS["C16"]["trusted_base"] = PROPS["C16"]["trusted_base"] + TB_SCHED
 PROPS["C03"]["components"].append(Sched("tc", 1500, 60000, label="sched-tc-gate"))
 PROPS["C03"]["trusted_base"] = PROPS["C03"]["trusted_base"] + TB_SCHED
 
+PROPS["C10"]["components"].append(Sched("gauge", 2000, 100000, label="sched-gauge-panic", only="C10:"))
+PROPS["C10"]["rule"] += " gauge (schedules): 2-5 concurrent callers among succeeding / failing / panicking run functions and fallbacks under every limit: a panic reaches its own caller with its value, nobody else sees one, and both gauges read zero once all returned."
+PROPS["C10"]["trusted_base"] = PROPS["C10"]["trusted_base"] + TB_SCHED
 PROPS["C01"]["components"].append(Sched("shed", 3000, 150000, exhaustive_limit=3000, conformance="tr-call", only="C01:"))
 PROPS["C01"]["rule"] += " shed (schedules): 2-4 threads among OpenCircuit / failing call (the opener says open) / succeeding call race on a circuit with the real hystrix closer whose sleep window never elapses and which cannot close; monitors: a call that starts after an opening completed is never run and gets the circuit-open error; one short-circuit event per shed call; every atomic step conforms to the Lean small-step model Conc/Call (K2)."
 PROPS["C01"]["trusted_base"] = TB_CIRCUIT + TB_SCHED
